@@ -9,22 +9,24 @@
 (* Layer A contributes one bit per document: Parse(buf).ok.                *)
 (***************************************************************************)
 EXTENDS Integers, Sequences, FiniteSets, TLC
-CONSTANTS K, MaxD, Sigma, Names, Roots, EmitOn
+CONSTANTS K, MaxD, Sigma, Names, Roots, HistK, EmitOn
 
 PI == INSTANCE ParserImpl
 F  == INSTANCE BinsonFormat
 E  == INSTANCE Emit
 
-VARIABLES phase, buf, n, P, stk, on, allOk, ref, path
-vars == <<phase, buf, n, P, stk, on, allOk, ref, path>>
-View == <<phase, buf, n, P, stk, on, allOk>>
+VARIABLES phase, buf, n, P, stk, on, allOk, ref, path, hist
+vars == <<phase, buf, n, P, stk, on, allOk, ref, path, hist>>
+\* hist = the last HistK calls (see MC_Nav): part of the explored state
+View == <<phase, buf, n, P, stk, on, allOk, hist>>
+Push(h, tok) == IF HistK = 0 THEN <<>> ELSE LET a == Append(h, tok) IN IF Len(a) > HistK THEN SubSeq(a, Len(a) - HistK + 1, Len(a)) ELSE a
 
 Init == /\ phase = "build" /\ \E r \in Roots : buf = <<IF r = "O" THEN 64 ELSE 66>>
-        /\ n = 0 /\ P = PI!BlankP(MaxD) /\ stk = <<>> /\ on = "none" /\ allOk = TRUE /\ ref = FALSE /\ path = ""
+        /\ n = 0 /\ P = PI!BlankP(MaxD) /\ stk = <<>> /\ on = "none" /\ allOk = TRUE /\ ref = FALSE /\ path = "" /\ hist = <<>>
 
 Add == /\ phase = "build" /\ n < K
        /\ \E i \in 1..Len(Sigma) : buf' = buf \o Sigma[i]
-       /\ n' = n + 1 /\ UNCHANGED <<phase, P, stk, on, allOk, ref, path>>
+       /\ n' = n + 1 /\ UNCHANGED <<phase, P, stk, on, allOk, ref, path, hist>>
 
 Root == IF buf[1] = 64 THEN "O" ELSE "A"
 EndStr(r) == "end=" \o E!Bit(r)
@@ -47,7 +49,7 @@ Start ==
           /\ phase' = IF i0.ok THEN "start" ELSE "dead"
           /\ path' = E!Pre("I", arg, rch) \o " "
           /\ (EmitOn => PrintT(Line("", E!Full("I", arg, rch, IF rf THEN "0" ELSE "~" \o ToString(E!ErrCode(i0.P.err)), "x", "x", "x", "x", "x"), rf)))
-  /\ UNCHANGED <<n, stk, on, allOk>>
+  /\ UNCHANGED <<n, stk, on, allOk, hist>>
 
 Top == stk[Len(stk)]
 Do(op, arg, r, stk2, on2, must) ==
@@ -55,6 +57,7 @@ Do(op, arg, r, stk2, on2, must) ==
   /\ allOk' = (allOk /\ (must => r.ret))
   /\ path' = path \o E!Pre(op, arg, E!BitI(r.ret)) \o " "
   /\ (EmitOn => PrintT(Line(path, Pred(op, arg, r), ref)))
+  /\ hist' = Push(hist, op \o arg)
   /\ UNCHANGED <<buf, n, ref>>
 OnOf(r) == IF r.ret THEN PI!GetType(r.P) ELSE "none"
 
